@@ -155,8 +155,13 @@ def check(ctx, run):
                                  file=str(prog.modules[fi.module].path) if fi else None, line=getattr(node, "lineno", None)))
     # ---- syntactic coverage: every tensor in-place site must have been reached ---------
     skipped = 0
+    from ..registry import python_container_store_nodes
+    registry_stores = python_container_store_nodes(ctx)  # stores into the dict registries, reached (and judged) in the call histories
     for mod, node, how in inplace_sites(prog):
         if id(node) in covered:
+            continue
+        if id(node) in registry_stores:
+            skipped += 1
             continue
         text = ast.unparse(node)
         # Python-level containers and scalars: dict/list stores, counters, strings
